@@ -1590,7 +1590,7 @@ process_stdopt(ESL_GETOPTS *g, int *ret_opti, char **ret_optarg)
   /* Figure out what option this optchar is
    */
   for (opti = 0; opti < g->nopts; opti++)
-    if (*(g->optstring) == g->opt[opti].name[1]) break;	/* this'll also fail appropriately for long opts. */
+    if (*(g->optstring) == g->opt[opti].name[1] && g->opt[opti].name[2] == '\0') break; /* only one-char options; a '-' in the optstring mustn't match "--foo" */
   if (opti == g->nopts)
     ESL_FAIL(eslESYNTAX, g->errbuf, "No such option \"-%c\".", *(g->optstring));
   *ret_opti    = opti;
